@@ -62,7 +62,7 @@ example : (step .fixed (.latency 0 4611686018427387904) true {} (.idle 0) (.inpu
 set_option hygiene false in
 macro "wf_close" : tactic => `(tactic|
   ((try split at h) <;> (try split at h) <;> (try split at h) <;> (try simp at h) <;> (try (obtain ⟨_, rfl⟩ := h)) <;>
-   (first | exact (slicerSend_ok _ _ _ _ (by simpa [PcWF] using hwf)).2.1 _ | simp [PcWF] | skip)))
+   (first | exact (slicerSend_ok _ _ _ _ (by simpa [PcWF] using hwf)).2.1 _ | (simpa [PcWF] using hwf) | simp [PcWF, bwLoop_neg] | skip)))
 
 /-- The toxics that are not data-preserving (timeout, limit_data, reset_peer: they drop,
 truncate or close): their steps keep the program counter well-formed too. -/
